@@ -192,6 +192,16 @@ int main(int argc, char** argv) {
             cfg.use_survival_rate = rng.coin(); cfg.survival_rate_month = rng.in(1, 12); cfg.survival_rate_day = rng.in(1, 28);
             cfg.use_spreadrates = rng.coin(); cfg.spreadrate_frequency = pickf(); cfg.spreadrate_frequency_n = (unsigned)rng.in(0, 5);
             cfg.use_quarantine = rng.coin(); cfg.quarantine_frequency = pickf(); cfg.quarantine_frequency_n = (unsigned)rng.in(0, 5);
+            if (rng.coin(30)) {
+                // the four name-built schedules share one frequency string and differ only in n (when the
+                // string is every_n_steps, n is all that tells them apart): seeded change C09k
+                std::string f = rng.coin(70) ? std::string("every_n_steps") : safe[(size_t)rng.in(0, 7)];
+                cfg.output_frequency = cfg.mortality_frequency = cfg.spreadrate_frequency = cfg.quarantine_frequency = f;
+                cfg.output_frequency_n = (unsigned)rng.in(1, 5); cfg.mortality_frequency_n = (unsigned)rng.in(1, 5);
+                cfg.spreadrate_frequency_n = (unsigned)rng.in(1, 5); cfg.quarantine_frequency_n = (unsigned)rng.in(1, 5);
+                if (rng.coin(60)) cfg.use_mortality = cfg.use_spreadrates = cfg.use_quarantine = true;
+                stats.add("config_shared_frequency");
+            }
             cfg.weather_size = rng.coin(40) ? 0 : rng.in(1, 9);
             out << "cfgsched " << (unit == 0 ? "day" : unit == 1 ? "week" : "month") << " " << num << " " << ds(st) << " " << ds(en) << " " << ss << " " << se
                 << " " << q(cfg.output_frequency) << " " << cfg.output_frequency_n << " " << cfg.use_mortality << " " << q(cfg.mortality_frequency) << " " << cfg.mortality_frequency_n
